@@ -1,5 +1,9 @@
-"""C19 — closing relation / in-out classification / Equal: exhaustive grids through the real API."""
-from vlib import Case
+"""C19 — closing relation / in-out classification / Equal: exhaustive grids through the real API, on descriptors
+built with the setters (seg.row / seg.close1 / seg.eqm / seg.inout) AND on descriptors decoded from section bytes
+(seg.dec.closem / seg.dec.close1 / seg.dec.eqm; sections serialised from logical values by the Coq serialiser `ser.scte`)."""
+import vlib
+from vlib import Case, hx
+from gen import sctelib as L
 
 PROP = "C19"
 PROOF_FILES = ["Properties/C19.v"]
@@ -9,14 +13,39 @@ RULE = ("seg.row tin ...: one line per incoming type (all 256), each line = 256 
         "with the public API; the canonical value set plus value sets that differ only in high bits and signals without "
         "PTS; seg.close1: random descriptor pairs (rule types, random field values, equal/near-equal event ids and PTS); seg.inout: IsIn/IsOut of all 256 types; seg.eqm: Equal on every ordered pair of a family made of a base "
         "descriptor and all its single-field variants (also checks symmetry data and that Equal does not modify its "
-        "arguments). A line is non-trivial when its incoming type has at least one rule (seg.row), always for the others.")
+        "arguments). A line is non-trivial when its incoming type has at least one rule (seg.row), always for the others. "
+        "DECODED descriptors (kinds dec-*): every descriptor is Descriptors()[0] of scte35.NewSCTE35(section bytes), the sections "
+        "being serialised from logical values by the Coq Spec serialiser (ser.scte, cross-checked by a Python bit writer); the "
+        "model decodes the same bytes with Model/Scte.v, maps the result to the abstract record (Exec/SegDecExec.v "
+        "desc_of_decoded) and runs Model/SegDesc.v; the getter view of every decoded descriptor is compared as well. "
+        "seg.dec.closem [D sections] [O sections]: dec-close-grid = per value set all 256 incoming types x {segnum =/<> "
+        "segments_expected} (x {no sub-segment fields, sub_num = sub_expected, sub_num <> sub_expected} for types 0x34/0x36, the "
+        "only ones that carry them on the wire) against all 256 open types x event ids equal/different x PTS equal/different, "
+        "i.e. the 256x256x8 grid, once with minimal sections (time_signal, pts_adjustment 0) and once with randomised sections "
+        "(time_signal / splice_insert, pts_time + pts_adjustment wrapping to the wanted PTS, components, duration, UPID/MID, "
+        "restriction flags, foreign descriptors in front, a second segmentation descriptor behind, pointer_field, stuffing); "
+        "dec-close-nopts = the same for signals without a time (splice_null, immediate / cancelled / component splice_insert: "
+        "PTS() is then the pts_adjustment) on either or both sides; dec-close-random = seg.dec.close1 on random pairs; "
+        "dec-equal = seg.dec.eqm on a base section and its single-field variants (sub-segment fields varied only for "
+        "0x34/0x36) plus re-encodings of the base that differ only in fields Equal must ignore; dec-fidelity-* (not deciding) = "
+        "sections outside the serialiser's well-formedness (sub-segment bytes after another type) or without a descriptor. "
+        "A seg.dec.closem line is non-trivial when it contains an incoming type with rules.")
 EXHAUSTIVE = True
 EXHAUSTIVE_NOTE = ("256 x 256 types x 2 x 2 x 2 (x 3 sub-segment shapes) = 1 572 864 CanClose calls per value set, all 256 types "
                    "through IsIn/IsOut, and the complete single-field-difference grid of Equal are enumerated on every run; "
-                   "the dependence on the field VALUES only through their equalities is the theorem C19_can_close_abstraction")
+                   "the dependence on the field VALUES only through their equalities is the theorem C19_can_close_abstraction. "
+                   "Decoded descriptors: the same 256 x 256 x 2 x 2 x 2 type/condition grid (x 3 sub-segment shapes for 0x34/0x36) is "
+                   "enumerated on every run for two value sets, but the SECTIONS around the descriptor (command kind, pts_time / "
+                   "pts_adjustment split, other descriptor fields, neighbouring descriptors, pointer field) are a random SAMPLE: the "
+                   "tie 'decoder output = abstract record' is sampled, and is otherwise the theorem C08_decode_ser + the C08 correspondence")
 TRUSTED_EXTRA = ["Spec/SegRules.v: the golden table (193 entries incl. the 4 breakaway additions) and the in/out lists, transcribed once from the pinned literal"]
 ASSUMPTIONS = ["descriptors are built through CreateSCTE35/CreateSegmentationDescriptor and the setters; a signal 'without PTS' is a "
-               "splice_null or a time_signal with the time flag off (its stored pts field still exists and CanClose reads it)"]
+               "splice_null or a time_signal with the time flag off (its stored pts field still exists and CanClose reads it)",
+               "dec-* cases: the sections are 'supported' sections of C08 (Spec/Scte35Spec.v wf_splice_info, table_id 0xFC, clear, "
+               "splice_null / time_signal with time / splice_insert, pointer_field < 255); the descriptor judged is the FIRST "
+               "segmentation descriptor of the section; the abstract record of a decoded descriptor is Exec/SegDecExec.v "
+               "desc_of_decoded (executor glue, trusted; vss is not derived, CanClose/Equal do not read it); a time_signal without a "
+               "time is rejected by the decoder, so decoded signals 'without PTS' are splice_null and time-less splice_insert"]
 
 RULE_TYPES = {0x10, 0x11, 0x12, 0x13, 0x14, 0x19, 0x20, 0x21, 0x22, 0x23, 0x24, 0x25, 0x26, 0x27, 0x30, 0x31, 0x32, 0x33, 0x34,
               0x35, 0x36, 0x37, 0x3C, 0x3D, 0x40, 0x41, 0x42, 0x43, 0x44, 0x45, 0x50, 0x51}
@@ -60,6 +89,279 @@ def family(base, rng):
     for i, d in enumerate(fam):
         d["id"] = i
     return fam
+
+
+# ------------------------------------------------------------------ decoded descriptors (seg.dec.*)
+SUB_TYPES = (0x34, 0x36)     # the only types whose sub_segment_num / sub_segments_expected exist on the wire
+IN_TYPES = {0x11, 0x12, 0x13, 0x15, 0x16, 0x18, 0x21, 0x23, 0x31, 0x33, 0x35, 0x37, 0x41, 0x45, 0x51}
+OUT_TYPES = {0x10, 0x14, 0x17, 0x19, 0x20, 0x22, 0x30, 0x32, 0x34, 0x36, 0x40, 0x44, 0x50}
+VIEW_NAMES = ["TypeID", "EventID", "SCTE35().HasPTS", "SCTE35().PTS", "SegmentNumber", "SegmentsExpected", "HasSubSegments",
+              "SubSegmentNumber", "SubSegmentsExpected", "IsIn", "IsOut"]
+_expect = {}   # request line -> expected getter views (from the logical values the sections were serialised from)
+
+
+def norm(d):
+    """what a section can carry: sub-segment fields only for 0x34/0x36 (absent -> HasSubSegments false, numbers 0)"""
+    d = dict(d)
+    if d["ty"] not in SUB_TYPES:
+        d["hassub"] = 0
+    if not d["hassub"]:
+        d["subnum"] = d["subexp"] = 0
+    return d
+
+
+def view_of(d):
+    d = norm(d)
+    return [d["ty"], d["event"], d["haspts"], d["ptsv"], d["segnum"], d["segexp"], d["hassub"], d["subnum"], d["subexp"],
+            int(d["ty"] in IN_TYPES), int(d["ty"] in OUT_TYPES)]
+
+
+def section_of(d, rng, rich, raw_sub=None):
+    """logical splice_info (wire shape of ser.scte) whose first segmentation descriptor is d and whose PTS() is d.ptsv;
+    rich=False: time_signal / splice_null, pts_adjustment 0 unless there is no time, bare descriptor;
+    raw_sub: sub-segment bytes forced on the wire whatever the type (fidelity only)"""
+    d = norm(d)
+    P = d["ptsv"]
+    sub = [[d["subnum"], d["subexp"]]] if d["hassub"] else []
+    if raw_sub is not None:
+        sub = [list(raw_sub)]
+    for attempt in range(8):
+        r = rich and attempt < 6
+        if r:
+            restr = [] if rng.random() < 0.4 else [[rng.randrange(2), rng.randrange(2), rng.randrange(2), rng.randrange(4)]]
+            body = L.g_segbody(rng, rng.choice([0, 0, 1, 2, 3]), rng.randrange(2), restr, rng.randrange(4), d["ty"], 0)
+            body[5], body[6], body[7] = d["segnum"], d["segexp"], sub
+        else:
+            body = [[], [], [], [0, 0, b""], d["ty"], d["segnum"], d["segexp"], sub]
+        descs = [[0, d["event"], [body]]]
+        if r and rng.random() < 0.3:
+            descs = [L.g_foreign(rng) for _ in range(rng.choice([1, 1, 2]))] + descs
+        if r and rng.random() < 0.3:
+            descs = descs + [L.g_seg(rng) if rng.random() < 0.7 else L.g_foreign(rng)]
+        ins = lambda mode: [2, rng.randrange(1 << 32), [[rng.randrange(2), mode, L.g_break(rng, rng.randrange(3)),
+                                                          rng.randrange(65536), rng.randrange(256), rng.randrange(256)]]]
+        if d["haspts"]:
+            t = rng.choice([P, rng.randrange(L.T33), L.T33 - 1, 0]) if r else P
+            adj = (P - t) % L.T33
+            cmd = ins([1, [t]]) if r and rng.random() < 0.35 else [1, [t]]
+        else:
+            adj = P        # no command time: PTS() is the pts_adjustment
+            k = rng.randrange(5) if r else 0
+            cmd = [[0], ins([0]), [2, rng.randrange(1 << 32), []], ins(L.g_mode(rng, 2)), ins(L.g_mode(rng, 3))][k]
+        if r:
+            s = L.g_signal(rng, cmd=cmd, descs=descs)
+            s[8] = adj
+        else:
+            s = [b"", 0xFC, 0, 0, 3, 0, 0, 0, adj, 0, 0xFFF, 0, cmd, descs, b"", 0]
+        if L.fits(s):
+            return s
+    raise RuntimeError("cannot build a section for %r" % d)
+
+
+def serialise(signals):
+    """bytes of each logical signal through the Coq serialiser ser.scte; the independent Python bit writer must agree
+    (as sctelib.serialise)"""
+    rep = vlib.run_model(["ser.scte " + L.fmt_val(s) for s in signals])
+    out = []
+    for s, r in zip(signals, rep):
+        if not r.startswith("x"):
+            raise RuntimeError("ser.scte rejected a generated logical signal: %s -> %s" % (L.fmt_val(s), r))
+        b = bytes.fromhex(r[1:])
+        if L.py_ser(s) != b:
+            raise RuntimeError("Python and Coq SCTE-35 serialisers disagree on %s" % L.fmt_val(s))
+        out.append(b)
+    return out
+
+
+class Pool:
+    """collects logical sections, serialises them in one ser.scte batch"""
+    def __init__(self):
+        self.sigs = []; self.views = []; self.data = None
+
+    def add(self, d, rng, rich, raw_sub=None, view=True):
+        self.sigs.append(section_of(d, rng, rich, raw_sub)); self.views.append(view_of(d) if view else None)
+        return len(self.sigs) - 1
+
+    def add_logical(self, s):
+        self.sigs.append(s); self.views.append(None)
+        return len(self.sigs) - 1
+
+    def serialise(self):
+        self.data = serialise(self.sigs)
+
+    def hx(self, i):
+        return hx(self.data[i])
+
+
+def d_variants(tin, e1, p1, s1, s2, hp):
+    """incoming descriptors of type tin: segnum <> / = segments_expected (x the three sub-segment shapes where they exist)"""
+    out = []
+    for se in (0, 1):
+        for hs, bn, be in ([(0, 0, 0), (1, 7, 7), (1, 8, 7)] if tin in SUB_TYPES else [(0, 0, 0)]):
+            out.append(dict(ty=tin, event=e1, haspts=hp, ptsv=p1, segnum=s1 if se else s2, segexp=s1, hassub=hs, subnum=bn, subexp=be))
+    return out
+
+
+def o_variants(tout, e1, e2, p1, p2, s2, hp):
+    """open descriptors of type tout: event id equal/different x PTS equal/different (sub-segment fields on some 0x34/0x36)"""
+    return [dict(ty=tout, event=e1 if ee else e2, haspts=hp, ptsv=p1 if pe else p2, segnum=s2, segexp=(s2 + 1) % 256,
+                 hassub=int(ee != pe), subnum=3, subexp=4) for ee in (0, 1) for pe in (0, 1)]
+
+
+def chunks(l, n):
+    return [l[i:i + n] for i in range(0, len(l), n)]
+
+
+def dec_grids(rng, tier):
+    """-> (pool, [(kind, tins, [D indices], [O indices])]) : the type/condition grid on decoded descriptors"""
+    pool = Pool()
+    plans = []
+    rule = sorted(RULE_TYPES)
+    rest = [t for t in range(256) if t not in RULE_TYPES]
+    def value_set():
+        e1 = rng.randrange(2 ** 32); p1 = rng.randrange(2 ** 33); s1 = rng.randrange(256)
+        e2 = e1 ^ (1 << rng.randrange(32)); p2 = p1 ^ (1 << rng.randrange(33)); s2 = s1 ^ (1 << rng.randrange(8))
+        return e1, e2, p1, p2, s1, s2
+    full = chunks(rule, 8) + chunks(rest, 32)
+    def olist(vals, rich, hp):
+        e1, e2, p1, p2, s1, s2 = vals
+        return [pool.add(o, rng, rich) for tout in range(256) for o in o_variants(tout, e1, e2, p1, p2, s2, hp)]
+    def dlists(vals, rich, hp, tin_chunks):
+        e1, e2, p1, p2, s1, s2 = vals
+        return [(tins, [pool.add(d, rng, rich) for tin in tins for d in d_variants(tin, e1, p1, s1, s2, hp)]) for tins in tin_chunks]
+    def grid(kind, DL, O):
+        for tins, D in DL:
+            plans.append((kind, tins, D, O))
+    # minimal sections (time_signal, pts_adjustment 0, bare descriptor), canonical values: the whole grid
+    vals = (5, 6, 1000, 2000, 2, 1)
+    grid("dec-close-grid", dlists(vals, False, 1, full), olist(vals, False, 1))
+    # randomised sections: the whole grid with a time on both sides; signals without a time on either / both sides
+    for _ in range(1 if tier == "quick" else 6):
+        vals = value_set()
+        d_pts, o_pts, o_no = dlists(vals, True, 1, full), olist(vals, True, 1), olist(vals, True, 0)
+        nopts_chunks = chunks(rule, 8) if tier == "quick" else full
+        d_no = dlists(vals, True, 0, nopts_chunks)
+        grid("dec-close-grid", d_pts, o_pts)
+        grid("dec-close-nopts", d_no, o_pts)
+        grid("dec-close-nopts", d_pts[:len(nopts_chunks)], o_no)
+        grid("dec-close-nopts", d_no, o_no)
+    return pool, plans
+
+
+def rand_desc(rng, ty=None):
+    ty = rng.choice(sorted(RULE_TYPES)) if ty is None else ty
+    return dict(ty=ty, event=rng.randrange(2 ** 32), haspts=rng.choice([1, 1, 0]), ptsv=rng.randrange(2 ** 33), segnum=rng.randrange(256),
+                segexp=rng.randrange(256), hassub=rng.randrange(2), subnum=rng.randrange(256), subexp=rng.randrange(256))
+
+
+def dec_family(base, rng):
+    """base descriptor and its single-field variants, restricted to what sections can carry"""
+    base = norm(base)
+    fam = [dict(base)]
+    alts = {
+        "ty": [base["ty"] ^ 1, base["ty"] ^ 2, 0x34, 0x36, 0x10, (base["ty"] + 0x80) % 256],
+        "event": [(base["event"] + 1) % 2 ** 32, base["event"] ^ 0x80000000, base["event"] ^ 0x100, base["event"] ^ 0x10000, rng.randrange(2 ** 32)],
+        "haspts": [1 - base["haspts"]],
+        "ptsv": [(base["ptsv"] + 1) % 2 ** 33, base["ptsv"] ^ (1 << 32), base["ptsv"] ^ (1 << 31), base["ptsv"] ^ (1 << 8), rng.randrange(2 ** 33)],
+        "segnum": [(base["segnum"] + 1) % 256, base["segnum"] ^ 0x80],
+        "segexp": [(base["segexp"] + 1) % 256, base["segexp"] ^ 0x80],
+    }
+    if base["ty"] in SUB_TYPES:
+        alts["hassub"] = [1 - base["hassub"]]
+        if base["hassub"]:
+            alts["subnum"] = [(base["subnum"] + 1) % 256, base["subnum"] ^ 0x80]
+            alts["subexp"] = [(base["subexp"] + 1) % 256, base["subexp"] ^ 0x80]
+    for f, vs in alts.items():
+        for v in vs:
+            d = dict(base); d[f] = v
+            d = norm(d)     # a type change away from 0x34/0x36 also drops the sub-segment fields (they leave the wire)
+            if d != base:
+                fam.append(d)
+    # two more encodings of the base itself (other command kind / pts split / neighbouring fields): Equal must not see them
+    fam.append(dict(base)); fam.append(dict(base))
+    if base["ty"] in SUB_TYPES:
+        d = dict(base); d["hassub"] = 1 - base["hassub"]; d["subnum"] = (base["subnum"] + 1) % 256; d["subexp"] = 9; fam.append(norm(d))
+    d = dict(base); d["haspts"] = 0; d["ptsv"] = (base["ptsv"] + 1) % 2 ** 33; fam.append(d)
+    return fam
+
+
+def gen_decoded(rng, tier):
+    out = []
+    pool, plans = dec_grids(rng, tier)
+    # random pairs: clusters of four random sections whose event ids / PTS values are equal or one bit apart, every
+    # ordered pair inside a cluster (incl. a descriptor against itself), plus pairs across clusters
+    pairs = []
+    prev = None
+    for _ in range(200 if tier == "quick" else 5000):
+        a = rand_desc(rng)
+        if rng.random() < 0.5:
+            a["segexp"] = a["segnum"]
+        cl = [a]
+        for _ in range(3):
+            b = rand_desc(rng)
+            b["event"] = rng.choice([a["event"], a["event"], b["event"], a["event"] ^ (1 << rng.randrange(32))])
+            b["ptsv"] = rng.choice([a["ptsv"], a["ptsv"], b["ptsv"], a["ptsv"] ^ (1 << rng.randrange(33))])
+            cl.append(b)
+        idx = [pool.add(d, rng, True) for d in cl]
+        pairs += [(i, j) for i in idx for j in idx]
+        if prev:
+            pairs += [(idx[0], prev[1]), (prev[2], idx[3])]
+        prev = idx
+    # Equal families
+    bases = [
+        dict(ty=0x34, event=77, haspts=1, ptsv=123456, segnum=2, segexp=3, hassub=1, subnum=1, subexp=2),
+        dict(ty=0x10, event=1, haspts=1, ptsv=0, segnum=0, segexp=0, hassub=0, subnum=0, subexp=0),
+        dict(ty=0x36, event=0xFFFFFFFF, haspts=1, ptsv=2 ** 33 - 1, segnum=255, segexp=255, hassub=0, subnum=0, subexp=0),
+        dict(ty=0x36, event=0x01020304, haspts=1, ptsv=0x1A2B3C4D5, segnum=6, segexp=7, hassub=1, subnum=8, subexp=9),
+        dict(ty=0x35, event=9, haspts=0, ptsv=500, segnum=1, segexp=1, hassub=0, subnum=0, subexp=0),
+        dict(ty=0x40, event=3, haspts=1, ptsv=501, segnum=1, segexp=1, hassub=0, subnum=0, subexp=0),
+    ]
+    for _ in range(6 if tier == "quick" else 120):
+        bases.append(rand_desc(rng, ty=rng.choice(sorted(RULE_TYPES) + [0x34, 0x36, 0x34, 0x36, 0, 1, 0xFF])))
+    fams = []
+    for i, b in enumerate(bases):
+        fam = dec_family(b, rng)
+        fams.append([pool.add(d, rng, rich=(i != 1) and not (k == 0 and i < 3)) for k, d in enumerate(fam)])
+    # fidelity: sub-segment bytes behind a type that has none (outside wf_seg_body: the decoder must ignore them),
+    # a section without a segmentation descriptor, a section the decoder refuses
+    fid = []
+    for ty in [0x30, 0x35, 0x37, 0x10, 0x00, 0xFF] + [rng.randrange(256) for _ in range(6 if tier == "quick" else 100)]:
+        if ty in SUB_TYPES:
+            continue
+        a = rand_desc(rng, ty=ty)
+        fid.append(("dec-fidelity-sub-on-other-type", pool.add(a, rng, True, raw_sub=(rng.randrange(256), rng.randrange(256))),
+                    pool.add(rand_desc(rng, ty=rng.choice([0x34, 0x36, 0x30])), rng, True)))
+    nodesc = pool.add_logical(L.g_signal(rng, cmd=[0], descs=[]))
+    foreign_only = pool.add_logical(L.g_signal(rng, cmd=[1, [5]], descs=[L.g_foreign(rng)]))
+    refused = pool.add_logical(L.g_signal(rng, cmd=[1, []], descs=[L.g_seg(rng)]))
+    good = pool.add(rand_desc(rng), rng, True)
+    for x in (nodesc, foreign_only, refused):
+        fid.append(("dec-fidelity-no-descriptor", x, good)); fid.append(("dec-fidelity-no-descriptor", good, x))
+    pool.serialise()
+
+    for kind, tins, D, O in plans:
+        line = "seg.dec.closem [ %s ] [ %s ]" % (" ".join(pool.hx(i) for i in D), " ".join(pool.hx(i) for i in O))
+        _expect[line] = ([pool.views[i] for i in D], [pool.views[i] for i in O])
+        out.append(Case(line, kind=kind, nontrivial=any(t in RULE_TYPES for t in tins), theorem="C19_can_close_abstraction"))
+    for i, j in pairs:
+        line = "seg.dec.close1 %s %s" % (pool.hx(i), pool.hx(j))
+        _expect[line] = ([pool.views[i]], [pool.views[j]])
+        out.append(Case(line, kind="dec-close-random", theorem="C19_can_close_abstraction"))
+    for fam in fams:
+        line = "seg.dec.eqm " + " ".join(pool.hx(i) for i in fam)
+        _expect[line] = ([pool.views[i] for i in fam],)
+        out.append(Case(line, kind="dec-equal", theorem="C19_equal_spec"))
+    for kind, i, j in fid:
+        out.append(Case("seg.dec.close1 %s %s" % (pool.hx(i), pool.hx(j)), kind=kind, decides=False, nontrivial=False,
+                        theorem="Scte.new_scte35 + SegDecExec.desc_of_decoded vs scte35.NewSCTE35"))
+        out.append(Case("seg.dec.eqm %s %s %s" % (pool.hx(i), pool.hx(j), pool.hx(i)), kind=kind, decides=False, nontrivial=False,
+                        theorem="Scte.new_scte35 + SegDecExec.desc_of_decoded vs scte35.NewSCTE35"))
+    return out
+
+
+def case_of_line(line, kind):
+    dec = not kind.startswith("dec-fidelity")
+    return Case(line, kind=kind, decides=dec, nontrivial=dec)
 
 
 def gen(rng, tier):
@@ -107,23 +409,51 @@ def gen(rng, tier):
     for b in bases:
         fam = family(b, rng)
         out.append(Case("seg.eqm " + " ".join(dline(d) for d in fam), kind="equal-grid", theorem="C19_equal_sym"))
+    # 4. the same relations on descriptors DECODED from section bytes
+    out += gen_decoded(rng, tier)
     return out
 
 
-def shrink(c):
-    """seg.eqm: drop chunks of the family (delta debugging); the rows are already minimal"""
-    if not c.line.startswith("seg.eqm "):
-        return
-    import re
-    ds = re.findall(r"\[ [^\[\]]*\[ [^\[\]]*\] \]", c.line)
-    n = len(ds)
+def _delta(xs):
+    """delta debugging candidates (lazy): xs with one chunk removed, chunk sizes n/2, n/4, .., 1"""
+    n = len(xs)
     size = n // 2
     while size >= 1:
         for start in range(0, n, size):
-            rest = ds[:start] + ds[start + size:]
+            rest = xs[:start] + xs[start + size:]
             if len(rest) >= 1:
-                yield Case("seg.eqm " + " ".join(rest), kind=c.kind, theorem=c.theorem)
+                yield rest
         size //= 2
+
+
+def shrink(c):
+    """seg.eqm / seg.dec.eqm: drop chunks of the family (delta debugging); seg.dec.closem: drop chunks of either section
+    list, down to one pair (then restated as seg.dec.close1); the rows and the single pairs are already minimal"""
+    import re
+    if c.line.startswith("seg.eqm "):
+        ds = re.findall(r"\[ [^\[\]]*\[ [^\[\]]*\] \]", c.line)
+        for rest in _delta(ds):
+            yield Case("seg.eqm " + " ".join(rest), kind=c.kind, theorem=c.theorem)
+    elif c.line.startswith("seg.dec.eqm "):
+        secs = c.line.split()[1:]
+        for rest in _delta(secs):
+            yield Case("seg.dec.eqm " + " ".join(rest), kind=c.kind, decides=c.decides, theorem=c.theorem)
+    elif c.line.startswith("seg.dec.closem "):
+        m = re.match(r"seg\.dec\.closem \[([^\]]*)\] \[([^\]]*)\]\s*$", c.line)
+        if not m:
+            return
+        D, O = m.group(1).split(), m.group(2).split()
+        if len(D) == 1 and len(O) == 1:
+            yield Case("seg.dec.close1 %s %s" % (D[0], O[0]), kind=c.kind, decides=c.decides, theorem=c.theorem)
+            return
+        mk = lambda d, o: Case("seg.dec.closem [ %s ] [ %s ]" % (" ".join(d), " ".join(o)), kind=c.kind, decides=c.decides, theorem=c.theorem)
+        # halves of either list first (bin/check adopts the first candidate that still fails), then finer chunks
+        import itertools
+        co = [mk(D, rest) for rest in itertools.islice(_delta(O), 14)]
+        cd = [mk(rest, O) for rest in itertools.islice(_delta(D), 14)]
+        for a, b in itertools.zip_longest(chunks(co, 2), chunks(cd, 2)):
+            for x in (a or []) + (b or []):
+                yield x
 
 
 def search(c, rng):
@@ -131,10 +461,93 @@ def search(c, rng):
         yield row(tin, 5, 6, 1000, 2000, 2, 1, 1, 1, "search")
 
 
+def _sv(v):
+    """sview -> readable"""
+    if v and v[0] == 0:
+        if not v[1]:
+            return "decoded, no segmentation descriptor"
+        return "[" + ", ".join("%s=%s" % (n, ("0x%02x" % x) if n == "TypeID" else x) for n, x in zip(VIEW_NAMES, v[1][0])) + "]"
+    if v and v[0] == 1:
+        return "decoder error %s" % v[1]
+    return {2: "decoder panicked", 3: "decoder did not terminate"}.get(v[0] if v else None, str(v))
+
+
+def _view_diff(what, r, m):
+    for i in range(max(len(r), len(m))):
+        a = r[i] if i < len(r) else None
+        b = m[i] if i < len(m) else None
+        if a != b:
+            field = ""
+            try:
+                if a[0] == 0 and b[0] == 0 and a[1] and b[1]:
+                    k = [x != y for x, y in zip(a[1][0], b[1][0])].index(True)
+                    field = " (first differing getter: %s real %s, required %s)" % (VIEW_NAMES[k], a[1][0][k], b[1][0][k])
+            except Exception:
+                pass
+            return "%s section #%d decodes to a descriptor whose getters differ from the abstract record%s: real %s, required %s" % (what, i, field, _sv(a), _sv(b))
+    return None
+
+
+def dec_oracle(case, real, model):
+    """seg.dec.*: (0) the model's decoded views must be the logical values the generator serialised (else the generator or the
+    glue is wrong: not a verdict about gots), (1) real == model, with a message naming the first difference"""
+    from vlib import parse_val
+    try:
+        m = parse_val(model)
+        op = case.line.split(" ", 1)[0]
+        exp = _expect.get(case.line)
+        if exp is not None:
+            got = (m[0], m[1]) if op == "seg.dec.closem" else ([m[0]], [m[1]]) if op == "seg.dec.close1" else (m[0],)
+            for g, e in zip(got, exp):
+                for i, (gv, ev) in enumerate(zip(g, e)):
+                    if ev is not None and gv != [0, [ev]]:
+                        return ("generator/glue defect (not a verdict): the MODEL decodes section #%d to %s but it was serialised from %s"
+                                % (i, _sv(gv), ev))
+        if real == model:
+            return ""
+        r = parse_val(real)
+        if not isinstance(r, list) or len(r) != len(m):
+            return "real code answered %s where the model answers %s" % (real[:200], model[:200])
+        if op == "seg.dec.eqm":
+            msg = _view_diff("the", r[0], m[0])
+            if msg:
+                return msg
+            for i in range(len(m[1])):
+                for j in range(len(m[1][i])):
+                    if r[1][i][j] != m[1][i][j]:
+                        return ("Equal(decoded #%d, decoded #%d): real %d, required %d; #%d = %s, #%d = %s"
+                                % (i, j, r[1][i][j], m[1][i][j], i, _sv(m[0][i]), j, _sv(m[0][j])))
+            if r[2] != m[2]:
+                return "Equal modified one of its (decoded) arguments"
+        else:
+            vd, vo = (r[0], r[1]), (m[0], m[1])
+            if op == "seg.dec.close1":
+                rd, ro, md, mo = [r[0]], [r[1]], [m[0]], [m[1]]
+                rrows, mrows = ([r[2]] if r[2] else []), ([m[2]] if m[2] else [])
+            else:
+                rd, ro, md, mo = r[0], r[1], m[0], m[1]
+                rrows, mrows = r[2], m[2]
+            msg = _view_diff("incoming (D)", rd, md) or _view_diff("open (O)", ro, mo)
+            if msg:
+                return msg
+            for i in range(len(mrows)):
+                for j in range(len(mrows[i])):
+                    if rrows[i][j] != mrows[i][j]:
+                        return ("CanClose(decoded incoming #%d, decoded open #%d): real %d, rule table requires %d; incoming = %s, open = %s"
+                                % (i, j, rrows[i][j], mrows[i][j], _sv(md[i]), _sv(mo[j])))
+            if r[3] != m[3]:
+                return "CanClose modified one of its (decoded) arguments"
+    except Exception as e:
+        return "observed differs from required (%s)" % e
+    return "observed differs from required"
+
+
 def oracle(case, real, model):
     """projected equality, with a readable message naming the first differing cell"""
     if model in ("[8]", "[9]") or real in ("[8]", "[9]"):
         return "an executor rejected the request line (generator defect, not a verdict): real %s model %s" % (real, model)
+    if case.line.startswith("seg.dec."):
+        return dec_oracle(case, real, model)
     if real == model:
         return ""
     try:
@@ -171,7 +584,11 @@ def oracle(case, real, model):
 LEVEL_TEXT = ("Proof: Coq theorems (Properties/C19.v) over a model of CanClose/Equal/IsIn/IsOut and the segCloseRules literal: the closing "
               "relation equals the golden table of Spec/SegRules.v as a function of (type, type, event-equal, pts-equal, segnum=segexp) for "
               "ALL descriptor pairs (finite reflection over 256x256x8 plus record reasoning), the classification lists, and Equal as an "
-              "equivalence on descriptors with a PTS and a congruence for CanClose. The model is tied to the code exhaustively on every run.")
+              "equivalence on descriptors with a PTS and a congruence for CanClose. The model is tied to the code exhaustively on every run, "
+              "on descriptors built with the setters and on descriptors decoded from section bytes (the decoder model of C08 followed by "
+              "the glue desc_of_decoded; the sections themselves are a sample).")
 LEVEL_NOTE = ("Trusted: Coq kernel; Spec/SegRules.v as the reading of the documented table (transcribed once from the pinned literal); "
-              "Model/SegDesc.v (checked exhaustively by the correspondence); extraction and executor glue.")
-TECHNIQUE = "Coq proof (finite reflection over the type grid + record reasoning) + exhaustive model/implementation correspondence through the public API"
+              "Model/SegDesc.v (checked exhaustively by the correspondence); extraction and executor glue, including "
+              "Exec/SegDecExec.v desc_of_decoded (which getter of a decoded descriptor is which field of the abstract record; every "
+              "such getter is compared on every decoded case).")
+TECHNIQUE = "Coq proof (finite reflection over the type grid + record reasoning) + exhaustive model/implementation correspondence through the public API (setter-built and decoded descriptors)"
